@@ -70,7 +70,7 @@ def childCore (mkKey : Nat → Bytes) (k : XKey) (i : Nat) : Except Bip32Err XKe
 
 /-- the private branch's `childKey = …` as the code has it now (tie B: `Gen.Bip32.childKeyExpr`,
     expectation in MW.Props.C14). -/
-def storeKey (sum : Nat) : Bytes := BE.toBytes sum
+def storeKey (sum : Nat) : Bytes := paddedAppend 32 [] (BE.toBytes sum)   -- paddedAppend(32, nil, ilNum.Bytes())
 
 /-- `(*ExtendedKey).Child` -/
 def child (k : XKey) (i : Nat) : Except Bip32Err XKey := childCore C H storeKey k i
